@@ -107,6 +107,23 @@ fn check_string(s: &[u8], acc: &mut Acc) {
                 format!("rejected ({e}), reference accepts value {ev}"),
             ),
         }
+        // environment deviation: the same bytes through a reader that answers every read with at most 1 (2)
+        // bytes — a legal `Read`; value, acceptance and bytes consumed must not depend on how reads are split
+        if s.len() >= 2 {
+            for chunk in [1usize, 2] {
+                let mut cr = ChunkReader::new(s, chunk);
+                let g2 = read_varint(&mut cr, strict);
+                let same = match (&got, &g2) {
+                    (Ok(a), Ok(b)) => a == b && cr.pos == pos,
+                    (Err(_), Err(_)) => true,
+                    _ => false,
+                };
+                if !same {
+                    acc.violation(format!("decode {} strict={} reader answering {chunk} byte(s) per read", hx(s), strict), format!("short reads change the outcome: whole-slice reader {:?} at {pos}, chunked reader {:?} at {}", got.as_ref().map_err(|e| e.to_string()), g2.as_ref().map_err(|e| e.to_string()), cr.pos));
+                }
+                acc.inc("short_read_decodes");
+            }
+        }
     }
 }
 
@@ -119,6 +136,12 @@ fn check_value(v: i64, acc: &mut Acc) {
             format!("encode {v}"),
             format!("got {} reference {}", hx(&out), hx(&exp)),
         );
+    }
+    // short writes: a writer that accepts one byte per call must receive the same bytes
+    let mut cw = ChunkWriter { out: vec![], chunk: 1 };
+    match write_varint(&mut cw, v) {
+        Ok(()) if cw.out == out => {}
+        other => acc.violation(format!("encode {v} into a writer accepting 1 byte per write"), format!("{other:?}: got {} expected {}", hx(&cw.out), hx(&out))),
     }
     for strict in [false, true] {
         let mut c = Cursor::new(&out[..]);
@@ -232,7 +255,7 @@ pub fn run(ctx: &Ctx) -> Report {
     rep.transitions = rep.evaluations;
     rep.traces = rep.evaluations;
     rep.rule = format!(
-        "every byte string of length <= {full_len} (plus boundary lattices up to 9 bytes) decoded strict and lenient and compared with an independent varint decoder (value, consumed length, shortest-form acceptance); every value in [-{vb},{vb}) and the lattice +-2^k+-d (k<=55) encoded, compared with an independent encoder and decoded back. Non-trivial = distinct byte strings the lenient decoder accepts + distinct values round-tripped."
+        "every byte string of length <= {full_len} (plus boundary lattices up to 9 bytes) decoded strict and lenient and compared with an independent varint decoder (value, consumed length, shortest-form acceptance), and again through readers that answer every read with at most 1 / 2 bytes (short-read deviation: same outcome and consumption); every value in [-{vb},{vb}) and the lattice +-2^k+-d (k<=55) encoded, compared with an independent encoder and decoded back. Non-trivial = distinct byte strings the lenient decoder accepts + distinct values round-tripped."
     );
     rep.note("full_byte_length", json!(full_len));
     rep.note("value_bound", json!(vb));
